@@ -467,3 +467,168 @@ def search_C12_classification(tier, rng):
                                  'what': 'classifying a well-formed document raised %s' % r[4:], 'input_sha': _sha(doc),
                                  'api': 'MosFile.from_string(doc)'})
     return n, failures
+
+
+# ------------------------------------------------------------------ C20 accessors / inspect
+import io
+import contextlib
+import re as _re
+
+ACCESSORS = {  # class -> {accessor: (kind, where, idtag, tag)}
+    'StorySend': {'story': ('first', None, 'storyID', None)},
+    'StoryAppend': {'stories': ('carried', None, 'storyID', 'story')},
+    'StoryDelete': {'stories': ('ids', None, 'storyID', None)},
+    'ItemDelete': {'story': ('first', None, 'storyID', None), 'items': ('ids', None, 'itemID', None)},
+    'StoryInsert': {'target_story': ('first', None, 'storyID', None), 'source_stories': ('carried', None, 'storyID', 'story')},
+    'ItemInsert': {'story': ('first', None, 'storyID', None), 'item': ('first', None, 'itemID', None), 'items': ('carried', None, 'itemID', 'item')},
+    'StoryMove': {'source_story': ('nth0', None, 'storyID', None), 'target_story': ('nth1', None, 'storyID', None)},
+    'ItemMoveMultiple': {'story': ('first', None, 'storyID', None), 'item': ('last', None, 'itemID', None), 'items': ('butlast', None, 'itemID', None)},
+    'StoryReplace': {'story': ('first', None, 'storyID', None), 'stories': ('carried', None, 'storyID', 'story')},
+    'ItemReplace': {'story': ('first', None, 'storyID', None), 'item': ('first', None, 'itemID', None), 'items': ('carried', None, 'itemID', 'item')},
+    'EAStoryReplace': {'story': ('first', 'element_target', 'storyID', None), 'stories': ('carried', 'element_source', 'storyID', 'story')},
+    'EAItemReplace': {'story': ('first', 'element_target', 'storyID', None), 'item': ('first', 'element_target', 'itemID', None), 'items': ('carried', 'element_source', 'itemID', 'item')},
+    'EAStoryDelete': {'stories': ('ids', 'element_source', 'storyID', None)},
+    'EAItemDelete': {'story': ('first', 'element_target', 'storyID', None), 'items': ('ids', 'element_source', 'itemID', None)},
+    'EAStoryInsert': {'story': ('first', 'element_target', 'storyID', None), 'stories': ('carried', 'element_source', 'storyID', 'story')},
+    'EAItemInsert': {'story': ('first', 'element_target', 'storyID', None), 'item': ('first', 'element_target', 'itemID', None), 'items': ('carried', 'element_source', 'itemID', 'item')},
+    'EAStorySwap': {'stories': ('ids', 'element_source', 'storyID', None)},
+    'EAItemSwap': {'story': ('first', 'element_target', 'storyID', None), 'items': ('ids', 'element_source', 'itemID', None)},
+    'EAStoryMove': {'story': ('first?', 'element_target', 'storyID', None), 'stories': ('ids', 'element_source', 'storyID', None)},
+    'EAItemMove': {'story': ('first', 'element_target', 'storyID', None), 'item': ('first', 'element_target', 'itemID', None), 'items': ('ids', 'element_source', 'itemID', None)},
+}
+
+
+def _expected_ids(doc, cls, acc):
+    kind, where, idtag, tag = ACCESSORS[cls][acc]
+    root = ET.fromstring(doc)
+    base = [c for c in root if c.tag.startswith('ro')][0]
+    P = base if where is None else base.find(where)
+    if P is None:
+        return None
+    ids = [e.text for e in P.findall(idtag)]
+    if kind in ('first', 'first?'):
+        return [ids[0] if ids else None]
+    if kind == 'ids':
+        return ids
+    if kind == 'carried':
+        return [(e.find(idtag).text if e.find(idtag) is not None else None) for e in P.findall(tag)]
+    if kind == 'nth0':
+        return [ids[0]] if ids else None
+    if kind == 'nth1':
+        return [ids[1]] if len(ids) > 1 and ids[1] is not None else None
+    if kind == 'last':
+        return [ids[-1]] if ids and ids[-1] is not None else None
+    if kind == 'butlast':
+        return ids[:-1]
+
+
+def _pretty(doc):
+    return _re.sub(r'><', '>\n    <', doc)
+
+
+def c20_messages(tier):
+    from scenarios import refs
+    S = ['A', 'B', 'C']
+    I = ['1', '2']
+    R = ['A', 'ZZ', None]
+    out = []
+    for t in R + [ABSENT]:
+        for ids in ([['A'], ['A', 'B'], [None, 'A'], ['A', None], ['A', 'A']]):
+            out.append(('EAStoryMove', dict(target=t, ids=ids)))
+        if t != ABSENT:
+            out.append(('StoryInsert', dict(target=t, new=['N1', 'N2'])))
+            out.append(('StoryReplace', dict(target=t, new=['N1', 'N2'])))
+            out.append(('EAStoryReplace', dict(target=t, new=['N1'])))
+            out.append(('StorySend', dict(target=t)))
+        out.append(('EAStoryInsert', dict(target=t, new=['N1', 'N2'])))
+        for s in R:
+            out.append(('StoryMove', dict(src=s, target=t)))
+    for ids in ([['A'], ['A', 'B', 'C'], [None], ['A', None, 'B']]):
+        out.append(('StoryDelete', dict(ids=ids)))
+        out.append(('EAStoryDelete', dict(ids=ids)))
+    for a, b in itertools.product(R, repeat=2):
+        out.append(('EAStorySwap', dict(ids=[a, b])))
+        out.append(('EAItemSwap', dict(story='A', ids=[a, b])))
+    out.append(('StoryAppend', dict(new=['N1', 'N2'])))
+    for st in R:
+        for t in ['1', 'zz', None]:
+            out.append(('ItemInsert', dict(story=st, target=t, new=['n1', 'n2'])))
+            out.append(('EAItemInsert', dict(story=st, target=t, new=['n1'])))
+            out.append(('ItemReplace', dict(story=st, target=t, new=['n1'])))
+            out.append(('EAItemReplace', dict(story=st, target=t, new=['n1', 'n2'])))
+            for ids in (['1'], ['1', '2'], [None, '2']):
+                out.append(('ItemMoveMultiple', dict(story=st, target=t, ids=ids)))
+                out.append(('EAItemMove', dict(story=st, target=t, ids=ids)))
+        for ids in (['1'], ['1', None, '2']):
+            out.append(('ItemDelete', dict(story=st, ids=ids)))
+            out.append(('EAItemDelete', dict(story=st, ids=ids)))
+    return out
+
+
+def check_c20(kind, a, pretty):
+    doc, fn = msg(kind, **a)
+    if pretty:
+        doc = _pretty(doc)
+    viol = []
+    try:
+        m = MosFile.from_string(doc)
+    except Exception as e:
+        return ['classification raised %s' % type(e).__name__], doc
+    cls = type(m).__name__
+    for acc in ACCESSORS.get(cls, {}):
+        exp = _expected_ids(doc, cls, acc)
+        try:
+            v = getattr(m, acc)
+        except Exception as e:
+            viol.append('%s.%s raised %s' % (cls, acc, type(e).__name__))
+            continue
+        if v is None:
+            got = None
+        elif isinstance(v, (list, tuple)):
+            got = [x.id for x in v]
+        else:
+            got = [v.id]
+        ok = (got == exp) or (exp is None and got == [None]) or (got is None and exp == [None])
+        if not ok:
+            viol.append('%s.%s exposes ids %s, the message names %s' % (cls, acc, got, exp))
+    buf = io.StringIO()
+    try:
+        with contextlib.redirect_stdout(buf):
+            m.inspect()
+        outp = buf.getvalue()
+        for acc, (k, where, idtag, tag) in ACCESSORS.get(cls, {}).items():
+            if k in ('ids', 'carried', 'butlast'):
+                for i in (_expected_ids(doc, cls, acc) or []):
+                    if i is not None and i not in outp:
+                        viol.append('%s.inspect() does not mention %s %s' % (cls, idtag, i))
+    except Exception as e:
+        viol.append('%s.inspect() raised %s' % (cls, type(e).__name__))
+    return viol, doc
+
+
+def search_C20(tier, rng):
+    n = 0
+    failures = []
+    msgs = c20_messages(tier)
+    msgs.append(('RunningOrderReplace', dict(new=['X1'])))
+    msgs.append(('MetaDataReplace', dict(body='<roSlug>x</roSlug><roChannel/>')))
+    msgs.append(('RunningOrderEnd', {}))
+    msgs.append(('ReadyToAir', {}))
+    for kind, a in msgs:
+        for pretty in (False, True):
+            n += 1
+            viol, doc = check_c20(kind, a, pretty)
+            for w in viol:
+                if len(failures) < 12:
+                    failures.append({'property': 'C20', 'fn': 'mosromgr.mostypes.%s' % kind, 'kind': kind, 'args': a, 'pretty': pretty, 'doc': doc,
+                                     'what': w + (' (pretty-printed)' if pretty else ' (compact)'), 'input_sha': _sha(doc),
+                                     'api': 'm = MosFile.from_string(doc); accessors; m.inspect()'})
+    return {'evaluations': n, 'distinct': n, 'failures': failures,
+            'rule': 'every message class x targets in {existing, unknown, blank, absent} x source lists incl. blank / repeated ids x compact and pretty-printed XML; '
+                    'oracle = ids read directly from the message text',
+            'summary': {'short': '%d messages: accessors and inspect() vs message text, %d failing' % (n, len(failures)), 'bounded': True}, 'assumptions': []}
+
+
+def replay_C20(prop, f):
+    viol, _ = check_c20(f['kind'], f['args'], f['pretty'])
+    return bool(viol)
